@@ -365,15 +365,21 @@ func loadCorpus() map[string]string {
 // normDeps sorts the dependency list (and drops the index-based public/weak lists after
 // translating them to names).
 func normDeps(fd *descriptorpb.FileDescriptorProto) {
-	pub := map[string]bool{}
+	pub, weak := map[string]bool{}, map[string]bool{}
 	for _, i := range fd.PublicDependency {
 		pub[fd.Dependency[i]] = true
 	}
+	for _, i := range fd.WeakDependency {
+		weak[fd.Dependency[i]] = true
+	}
 	sort.Strings(fd.Dependency)
-	fd.PublicDependency = nil
+	fd.PublicDependency, fd.WeakDependency = nil, nil
 	for i, d := range fd.Dependency {
 		if pub[d] {
 			fd.PublicDependency = append(fd.PublicDependency, int32(i))
+		}
+		if weak[d] {
+			fd.WeakDependency = append(fd.WeakDependency, int32(i))
 		}
 	}
 }
